@@ -82,7 +82,7 @@ end C11
 namespace C20
 
 def generatedNames (mf : ManifestFacts) : List String :=
-  mf.examples.flatMap fun (_, name) => mf.cliNamePatterns.map fun (pre, suf) => "generated/" ++ pre ++ name ++ suf
+  mf.examples.flatMap fun (_, name) => mf.cliNamePatterns.map fun (pre, suf) => mf.makeOutDir ++ "/" ++ pre ++ name ++ suf
 
 def entryOk (mf : ManifestFacts) (e : ManifestEntry) : Bool :=
   mf.tracked.contains e.path || (generatedNames mf).contains e.path
